@@ -344,7 +344,52 @@ def rule_name(c, prog):
         c.violation(R, "name|reader", "deserialize_instance no longer assigns the decoded Name to instance.name", fn.sp, instance="reader:name-assigned")
 
 
+def rule_pack(c, prog):
+    """Color3uint8 <-> packed u32 text, decided in the GF(2)-affine bit domain for all 2^24 colours at once"""
+    from sa import algebra
+    from sa.algebra import Bits, BitEval, NotAffine
+    R = "C02.pack"
+    c.rule(R, "decode_packed_color3(encode_packed_color3(c)) = c for every Color3uint8 (exact bit-vector abstract interpretation); the packed layout is 0x00RRGGBB with the top byte ignored on read")
+    enc = prog.fn("rbx_xml::types::colors::encode_packed_color3")
+    dec = prog.fn("rbx_xml::types::colors::decode_packed_color3")
+    x = {f: Bits.input(f, 8) for f in ("r", "g", "b")}
+    inst = "codec:packed_color3"
+    try:
+        be = BitEval(prog)
+        y = be.ev(enc.body, {enc.params[0]["lid"]: x})
+        if isinstance(y, dict) or y.width != 32:
+            raise NotAffine("encode_packed_color3 does not produce a u32")
+        z = be.ev(dec.body, {dec.params[0]["lid"]: y})
+        if not isinstance(z, dict) or set(z) != {"r", "g", "b"}:
+            raise NotAffine("decode_packed_color3 does not produce a Color3uint8")
+    except NotAffine as e:
+        c.violation(R, "packed_color3|cannot-establish", f"cannot establish decode(encode(c)) = c for the packed Color3 text form: {e}", enc.sp, instance=inst)
+        return
+    bad = [f for f in ("r", "g", "b") if not z[f].same(x[f])]
+    if bad:
+        c.violation(R, "packed_color3|not-identity", f"decode_packed_color3(encode_packed_color3(c)) differs from c in component(s) {bad}: e.g. {bad[0]} = {z[bad[0]].describe()}", enc.sp, instance=inst)
+    else:
+        c.ok(R, inst)
+    # layout: byte 0 = b, byte 1 = g, byte 2 = r, byte 3 = 0
+    want = x["b"].bits + x["g"].bits + x["r"].bits + [algebra.ZERO] * 8
+    if y.bits == want:
+        c.ok(R, "layout:0x00RRGGBB")
+    else:
+        c.violation(R, "packed_color3|layout", f"encode_packed_color3 lays the colour out as {y.describe()}; Roblox's packed form is r<<16 | g<<8 | b", enc.sp, instance="layout:0x00RRGGBB")
+    # the reader ignores the top byte (Roblox writes 0xFF there): decoding an arbitrary u32 depends on its low 24 bits only
+    try:
+        w = be.ev(dec.body, {dec.params[0]["lid"]: Bits.input("p", 32)})
+        deps = {i for f in ("r", "g", "b") for (_c, ss) in w[f].bits for (_n, i) in ss}
+        if deps == set(range(24)):
+            c.ok(R, "read:top-byte-ignored")
+        else:
+            c.violation(R, "packed_color3|top-byte", f"decode_packed_color3 reads bits {sorted(deps)} of the packed value; it must use exactly the low 24 (files written by Roblox carry 0xFF in the top byte)", dec.sp, instance="read:top-byte-ignored")
+    except NotAffine as e:
+        c.violation(R, "packed_color3|top-byte", f"cannot analyse decode_packed_color3 on an arbitrary u32: {e}", dec.sp, instance="read:top-byte-ignored")
+
+
 def run(c, prog):
+    rule_pack(c, prog)
     rule_tags(c, prog)
     rule_float(c, prog)
     rule_twopass(c, prog)
